@@ -557,8 +557,8 @@ def x2(cx: Cx, ob: Ob) -> None:
     state_closure(cx, ob)
 
 
-@obligation("C12-D6", "the converter handed out is built AFTER the records got their new URI prefixes: a converter constructed first, whose records are then changed in place, is not returned as it is (its reverse_prefix_map / trie would still describe the old URI prefixes)", floor=2)
-def d6(cx: Cx, ob: Ob) -> None:
+@obligation("C12-D7", "the converter handed out is built AFTER the records got their new URI prefixes: a converter constructed first, whose records are then changed in place, is not returned as it is (its reverse_prefix_map / trie would still describe the old URI prefixes)", floor=2)
+def d7(cx: Cx, ob: Ob) -> None:
     from ..rules import stale_tables
 
     stale_tables(cx, ob, [f"{RECON}.remap_uri_prefixes", f"{RECON}.rewire"])
